@@ -17,8 +17,13 @@ MCFold == [x \in {} |-> x]
 AnonEnum   == TEnum(<<Member("a", VStr("a"), "string"), Member("b", VStr("b"), "string")>>)
 IntEnum    == TEnum(<<Member("0", VInt("0"), "int64"), Member("-1", VInt("-1"), "int64")>>)
 AnonStruct == TStruct(<<Field("x", TString, TRUE), Field("y", TScalar("int64"), FALSE)>>)
+\* string enum whose member NAMES are numerals (CUE spells "1" | "2" @cog(kind="enum") this way),
+\* and a union of numeral string constants (becomes such an enum in some chains)
+NumStrEnum == TEnum(<<Member("1", VStr("1"), "string"), Member("2", VStr("2"), "string")>>)
+ConstUnion == TDisj(<<TConst("string", VStr("10")), TConst("string", VStr("20"))>>, "", <<>>)
 
-Leaves == <<TString, TScalar("int64"), TRef("p", "S"), TRef("p", "E"), AnonEnum, AnonStruct, TRef("p", "U"), IntEnum>>
+Leaves == <<TString, TScalar("int64"), TRef("p", "S"), TRef("p", "E"), AnonEnum, AnonStruct, TRef("p", "U"), IntEnum,
+            NumStrEnum, ConstUnion, TRef("p", "A2")>>
 
 \* constructors applied to an inner type x (the position under test)
 Ctors == <<"array", "mapval", "mapkey", "field", "optfield", "ornull", "orstring", "orref", "allof">>
@@ -48,6 +53,9 @@ SObj == Obj("p", "S", TStruct(<<Field("kind", TConst("string", VStr("s")), TRUE)
 S2Obj == Obj("p", "S2", TStruct(<<Field("kind", TConst("string", VStr("s2")), TRUE)>>))
 EObj == Obj("p", "E", TEnum(<<Member("on", VStr("on"), "string"), Member("off", VStr(""), "string")>>))
 UObj == Obj("p", "U", TDisj(<<TRef("p", "S"), TRef("p", "S2")>>, "", <<>>))
+\* an alias of an alias of a scalar (aliases are inlined by some chains)
+A1Obj == Obj("p", "A1", TString)
+A2Obj == Obj("p", "A2", TRef("p", "A1"))
 
 Positions == {"field", "optfield", "object"}
 CaseIR(shape, leaf, pos) ==
@@ -55,7 +63,7 @@ CaseIR(shape, leaf, pos) ==
       root == CASE pos = "field"    -> Obj("p", "Root", TStruct(<<Field("f", t, TRUE)>>))
                 [] pos = "optfield" -> Obj("p", "Root", TStruct(<<Field("f", t, FALSE)>>))
                 [] pos = "object"   -> Obj("p", "Root", t)
-  IN <<SchemaOf("p", <<root, SObj, S2Obj, EObj, UObj>>)>>
+  IN <<SchemaOf("p", <<root, SObj, S2Obj, EObj, UObj, A1Obj, A2Obj>>)>>
 
 Cases == {[shape |-> s, leaf |-> l, pos |-> ps] :
             s \in {x \in Shapes(MaxDepth) : TRUE}, l \in DOMAIN Leaves, ps \in Positions}
